@@ -19,3 +19,41 @@ PROPS = {
     'C04': {'jobsets': ['codec'], 'phases': ['encode']},
     'C16': {'jobsets': ['codec'], 'phases': []},
 }
+
+_CODEC_NOTE = ('Trusted: go/ssa lowering, gc/amd64 layout from go/types, the environment models of reflect/sync/fmt/runtime.mallocgc '
+               '(DESIGN.md s3, validated per run by concrete-mode translator validation against the native build), z3, the generated '
+               'reference codec. Bounds (strings/lists/maps <= 2 elements quick, <= 3 thorough; corpus of generated types) are in the '
+               'evidence file; larger values and types outside the generator grammar are outside the claim.')
+
+MANIFEST_TEXT = {
+    'C01': {'level': 'Bounded symbolic execution of the real EncodedSize/EncodeObject/DecodeObject (and the real registration code) from go/ssa for every '
+                     'generated corpus type: all scalar contents / string bytes are solver variables, shapes are enumerated by solver-checked choices; the '
+                     'round-trip assertion against the schema-derived reference is decided per path by z3 for all values; counterexamples are replayed natively.',
+            'ref': 'DESIGN.md s7 C01', 'note': _CODEC_NOTE, 'technique': 'SSA-level symbolic execution + SMT (z3), differential against generated reference codec'},
+    'C02': {'level': 'Same harness: the bytes written by EncodeObject are compared byte-for-byte, as bit-vector terms over all values, with the reference '
+                     'Thrift Binary encoder generated from the schema (not from the tags) for every corpus type incl. all 126 map key/value kind pairs.',
+            'ref': 'DESIGN.md s7 C02', 'note': _CODEC_NOTE, 'technique': 'SSA-level symbolic execution + SMT (z3), byte-level differential vs reference encoder'},
+    'C04': {'level': 'Same harness: EncodedSize (by pointer and by value) equals the reference length on every path for all values; EncodeObject into buffers '
+                     'of length 0, n/2, n-1 (cap==len and spare capacity) must return an error, report no length and leave every byte past the buffer untouched.',
+            'ref': 'DESIGN.md s7 C04', 'note': _CODEC_NOTE, 'technique': 'SSA-level symbolic execution + SMT (z3) with a byte-addressed memory model (bounds monitor)'},
+    'C16': {'level': 'Same harness with the memory-model monitor M-frozen: every store the implementation makes to the user value (deep) during size/encode and to '
+                     'the input buffer during decode is a violation; buffer tail and re-encoding are compared as terms.',
+            'ref': 'DESIGN.md s7 C16', 'note': _CODEC_NOTE, 'technique': 'SSA-level symbolic execution + SMT (z3), frozen-memory monitor'},
+}
+
+NOT_APPLICABLE = {
+    'C03': 'not built yet (planned: H_dec_WT, DESIGN.md s7 C03)',
+    'C05': 'not built yet (planned: H_bytes, DESIGN.md s7 C05)',
+    'C06': 'not built yet (planned: allocator lemma + ownership walk)',
+    'C07': 'not built yet (planned: dirty pools / call histories)',
+    'C08': 'not built yet (planned: bounded interleavings of the descriptor cache)',
+    'C09': 'not built yet (planned: bitset lemma + required fields)',
+    'C10': 'not built yet (planned: defaults family)',
+    'C11': 'not built yet (planned: unknown-field holder)',
+    'C12': 'not built yet (planned: spellings + symbolic parser text)',
+    'C13': 'not built yet (planned: invalid definitions)',
+    'C14': 'not built yet (planned: nocopy aliasing)',
+    'C15': 'not built yet (planned: depth induction)',
+    'C17': 'not built yet (planned: legacy controls)',
+    'C18': 'Allocation behaviour is decided by the gc compiler\'s escape analysis/inlining and runtime internals that do not exist at the go/ssa level this technique encodes; measuring MemStats would be a different technique (DESIGN.md s7 C18).',
+}
